@@ -65,6 +65,7 @@ package mvt
 // counter-clockwise ring (and only such a ring) opens a new polygon, every other ring joins the current
 // polygon as a hole — so every polygon after the first starts with a counter-clockwise ring
 //@ func (*geomDecoder).decodePolygon(gd)
+//@   opt opaque=oshoe
 //@   ovf assume
 //@   requires gd.iter != nil && gd.used >= 0
 //@   loop 1: invariant gd.iter == old(gd.iter) && gd.iter != nil && gd.used >= 0
